@@ -3,11 +3,13 @@ PROPS["C14"] = {
         "independent_ops": True,
         "claim": "Theorems (Lean kernel): int write/read round trip for every 64-bit value, int acceptance = FIX grammar, exact value up to 18 digits, "
                  "boolean both directions + grammar, float acceptance = grammar, timestamp write/read at four precisions for every valid civil instant of years 0-9999, "
-                 "string identity. Not yet theorems (monitor + correspondence only): timestamp read/write and timestamp acceptance = grammar; decimals; float values.",
+                 "timestamp read/write and acceptance = the strict UTCTimestamp grammar, string identity, decimal write/read (written text reads back as the value "
+                 "rounded half away from zero to the field's scale; unsigned decimals cut toward zero) and canonical decimal read/write. "
+                 "Correspondence only: float values (strconv), decimal exponent notation, udecimal's 19-digit limit.",
         "note": "Lean kernel + propext/Classical.choice/Quot.sound; the model of fix_int.go/fix_boolean.go/fix_float.go(acceptance)/fix_utc_timestamp.go is tied to the code by "
                 "running both on the same generated texts each run; strconv/time.Parse/shopspring internals are executed, not modelled",
         "rule": "seeded generation per value type: short strings over the type's alphabet plus near-miss characters, canonical texts, "
                 "boundary values, calendar grid with single defects, random bytes; distinct = distinct (op,input) pairs",
-        "assumptions": ["float values and shortest representation are strconv's; decimals are shopspring/udecimal's (not modelled)",
+        "assumptions": ["float values and shortest representation are strconv's; decimal arithmetic of shopspring/udecimal is modelled for non-positive exponents only (no 1e5 notation) and tied by correspondence",
                         "time.Parse/Format modelled for the four FIX layouts only"],
     }
